@@ -43,6 +43,7 @@ type boundsEngine struct {
 	nonnegP   map[*ssa.Parameter]bool
 	pathLoads []*ssa.UnOp // loads named by path while building the current term (path mode)
 	entryMemo map[*ssa.Function][]fact
+	bsMemo    map[*ssa.Function][]bsLoop
 }
 
 func newBoundsEngine(p *core.Prog) *boundsEngine {
@@ -427,6 +428,8 @@ func (e *boundsEngine) factsFrom(bo *ssa.BinOp, neg bool) []fact {
 // dominatingFacts collects the facts that hold at the entry of block b.
 func (e *boundsEngine) dominatingFacts(b *ssa.BasicBlock) []fact {
 	out := append([]fact{}, e.entryFacts(b.Parent())...)
+	out = append(out, e.idiomFacts(b.Parent())...)
+	out = append(out, e.searchClosureFacts(b.Parent())...)
 	for d := b; d != nil; d = d.Idom() {
 		id := d.Idom()
 		if id == nil {
@@ -1528,4 +1531,286 @@ func (e *boundsEngine) sliceOK1(s *ssa.Slice, facts []fact, use ssa.Instruction)
 		return false, "no dominating guard establishes low <= len"
 	}
 	return true, ""
+}
+
+// ---- binary search idioms ---------------------------------------------------------------
+
+// bsLoop is a recognised hand-written binary search
+//
+//	lo, hi := c, len(X)            (c >= 0)
+//	for lo < hi { mid := lo + (hi-lo)/2 | (lo+hi)/2 | int(uint(lo+hi)>>1); … hi = mid | lo = mid+1 }
+//
+// whose invariant is 0 <= lo <= hi <= len(X), and lo <= mid < hi inside the body.
+type bsLoop struct {
+	lo, hi *ssa.Phi
+	mids   []ssa.Value
+	x      ssa.Value // the slice / string whose length starts hi
+	lenAt  *ssa.Call
+}
+
+func isHalfOf(v ssa.Value) (ssa.Value, bool) {
+	switch x := v.(type) {
+	case *ssa.BinOp:
+		if k, ok := core.ConstInt(x.Y); ok {
+			if (x.Op == token.QUO && k == 2) || (x.Op == token.SHR && k == 1) {
+				return x.X, true
+			}
+		}
+	case *ssa.Convert:
+		if isIntType(x.X.Type()) && isIntType(x.Type()) {
+			return isHalfOf(x.X)
+		}
+	}
+	return nil, false
+}
+
+func stripIntConv(v ssa.Value) ssa.Value {
+	for {
+		c, ok := v.(*ssa.Convert)
+		if !ok || !isIntType(c.X.Type()) || !isIntType(c.Type()) {
+			return v
+		}
+		v = c.X
+	}
+}
+
+// isMidOf: v is the midpoint of lo and hi.
+func isMidOf(v ssa.Value, lo, hi ssa.Value) bool {
+	// (lo+hi)/2 , int(uint(lo+hi)>>1)
+	if inner, ok := isHalfOf(v); ok {
+		if s, ok := stripIntConv(inner).(*ssa.BinOp); ok && s.Op == token.ADD {
+			if (s.X == lo && s.Y == hi) || (s.X == hi && s.Y == lo) {
+				return true
+			}
+		}
+		return false
+	}
+	// lo + (hi-lo)/2
+	if a, ok := v.(*ssa.BinOp); ok && a.Op == token.ADD {
+		for _, pair := range [][2]ssa.Value{{a.X, a.Y}, {a.Y, a.X}} {
+			if pair[0] != lo {
+				continue
+			}
+			if inner, ok := isHalfOf(pair[1]); ok {
+				if d, ok := stripIntConv(inner).(*ssa.BinOp); ok && d.Op == token.SUB && d.X == hi && d.Y == lo {
+					return true
+				}
+			}
+		}
+	}
+	return false
+}
+
+func (e *boundsEngine) bsearchLoops(fn *ssa.Function) []bsLoop {
+	if e.bsMemo == nil {
+		e.bsMemo = map[*ssa.Function][]bsLoop{}
+	}
+	if v, ok := e.bsMemo[fn]; ok {
+		return v
+	}
+	var out []bsLoop
+	for _, h := range fn.Blocks {
+		iff, ok := h.Instrs[len(h.Instrs)-1].(*ssa.If)
+		if !ok || len(h.Succs) != 2 {
+			continue
+		}
+		bo, ok := iff.Cond.(*ssa.BinOp)
+		if !ok || bo.Op != token.LSS {
+			continue
+		}
+		lo, ok1 := bo.X.(*ssa.Phi)
+		hi, ok2 := bo.Y.(*ssa.Phi)
+		if !ok1 || !ok2 || lo.Block() != h || hi.Block() != h {
+			continue
+		}
+		body := h.Succs[0]
+		var mids []ssa.Value
+		isMid := map[ssa.Value]bool{}
+		for _, b := range fn.Blocks {
+			if !body.Dominates(b) {
+				continue
+			}
+			for _, in := range b.Instrs {
+				if v, ok := in.(ssa.Value); ok && isMidOf(v, lo, hi) {
+					mids = append(mids, v)
+					isMid[v] = true
+				}
+			}
+		}
+		if len(mids) == 0 {
+			continue
+		}
+		good := true
+		var x ssa.Value
+		var lenAt *ssa.Call
+		for _, ed := range hi.Edges {
+			if isMid[ed] || ed == ssa.Value(hi) {
+				continue
+			}
+			if arg := core.LenOf(ed); arg != nil && x == nil {
+				x = arg
+				lenAt, _ = stripIntConv(ed).(*ssa.Call)
+				continue
+			}
+			good = false
+		}
+		for _, ed := range lo.Edges {
+			if ed == ssa.Value(lo) {
+				continue
+			}
+			if k, ok := core.ConstInt(ed); ok && k >= 0 {
+				continue
+			}
+			if a, ok := ed.(*ssa.BinOp); ok && a.Op == token.ADD && isMid[a.X] {
+				if k, ok := core.ConstInt(a.Y); ok && k == 1 {
+					continue
+				}
+			}
+			good = false
+		}
+		if good && x != nil && lenAt != nil {
+			out = append(out, bsLoop{lo, hi, mids, x, lenAt})
+		}
+	}
+	e.bsMemo[fn] = out
+	return out
+}
+
+func isSortSearch(c *ssa.CallCommon) bool {
+	f := c.StaticCallee()
+	return f != nil && core.FnPkg(f) != nil && core.FnPkg(f).Path() == "sort" && f.Name() == "Search" && len(c.Args) == 2
+}
+
+// idiomFacts: facts about the values of recognised binary searches in fn (they hold wherever the values exist).
+func (e *boundsEngine) idiomFacts(fn *ssa.Function) []fact {
+	if fn == nil {
+		return nil
+	}
+	var out []fact
+	zero := lin{"", 0, nil, true}
+	add := func(a, b lin, k int64, at *ssa.BasicBlock, loads []*ssa.UnOp) {
+		if !a.ok || !b.ok {
+			return
+		}
+		out = append(out, fact{a: lin{a.term, 0, a.deps, true}, b: lin{b.term, 0, b.deps, true}, k: k - a.off + b.off, at: at, loads: loads,
+			deps: append(append([]string{}, a.deps...), b.deps...)})
+	}
+	for _, l := range e.bsearchLoops(fn) {
+		saved := e.pathLoads
+		e.pathLoads = nil
+		L := e.lenLin(l.x)
+		loads := append([]*ssa.UnOp{}, e.pathLoads...)
+		e.pathLoads = saved
+		at := l.lenAt.Block()
+		for _, v := range []ssa.Value{l.lo, l.hi} {
+			add(e.linOf(v), L, 0, at, loads)
+			add(zero, e.linOf(v), 0, at, loads)
+		}
+		for _, m := range l.mids {
+			add(e.linOf(m), L, -1, at, loads)
+			add(zero, e.linOf(m), 0, at, loads)
+			add(e.linOf(m), e.linOf(l.hi), -1, at, loads)
+			add(e.linOf(l.lo), e.linOf(m), 0, at, loads)
+		}
+	}
+	// n := sort.Search(N, f):  0 <= n <= N
+	for _, b := range fn.Blocks {
+		for _, in := range b.Instrs {
+			c, ok := in.(*ssa.Call)
+			if !ok || !isSortSearch(&c.Call) {
+				continue
+			}
+			saved := e.pathLoads
+			e.pathLoads = nil
+			N := e.linOf(c.Call.Args[0])
+			loads := append([]*ssa.UnOp{}, e.pathLoads...)
+			e.pathLoads = saved
+			add(e.linOf(c), N, 0, b, loads)
+			add(zero, e.linOf(c), 0, b, loads)
+		}
+	}
+	return out
+}
+
+// searchClosureFacts: fn is a function literal used only as the predicate of sort.Search(N, fn):
+// its parameter i satisfies 0 <= i < N. N is named in the closure's terms (captured variables
+// keep their names); it holds at the closure's entry provided nothing changed it between its
+// evaluation and the call.
+func (e *boundsEngine) searchClosureFacts(fn *ssa.Function) []fact {
+	if fn.Parent() == nil || len(fn.Params) != 1 || !e.pathMode {
+		return nil
+	}
+	parent := fn.Parent()
+	var site *ssa.Call
+	var mc *ssa.MakeClosure
+	for _, b := range parent.Blocks {
+		for _, in := range b.Instrs {
+			m, ok := in.(*ssa.MakeClosure)
+			if !ok || m.Fn != ssa.Value(fn) {
+				continue
+			}
+			if mc != nil {
+				return nil
+			}
+			mc = m
+			for _, ref := range core.Referrers(m) {
+				if _, isDbg := ref.(*ssa.DebugRef); isDbg {
+					continue
+				}
+				c, ok := ref.(*ssa.Call)
+				if !ok || !isSortSearch(&c.Call) || c.Call.Args[1] != ssa.Value(m) || site != nil {
+					return nil
+				}
+				site = c
+			}
+		}
+	}
+	if mc == nil || site == nil {
+		return nil
+	}
+	e.pathLoads = nil
+	N := e.linOf(site.Call.Args[0])
+	loads := append([]*ssa.UnOp{}, e.pathLoads...)
+	if !N.ok {
+		return nil
+	}
+	probe := fact{a: lin{N.term, 0, N.deps, true}, b: lin{"", 0, nil, true}, deps: N.deps, at: site.Block(), loads: loads}
+	if e.factClobbered(probe, site) {
+		return nil
+	}
+	// rename captured variables: &x@parent -> fv:x
+	term := N.term
+	var deps []string
+	for i, bnd := range mc.Bindings {
+		a, ok := bnd.(*ssa.Alloc)
+		if !ok || i >= len(fn.FreeVars) {
+			continue
+		}
+		term = strings.ReplaceAll(term, "&"+a.Name()+"@"+parent.Name(), "fv:"+fn.FreeVars[i].Name())
+	}
+	if strings.Contains(term, "@"+parent.Name()) {
+		return nil // mentions a value of the parent that the closure cannot name
+	}
+	for _, d := range N.deps {
+		if strings.HasPrefix(d, "var:") {
+			renamed := false
+			for i, bnd := range mc.Bindings {
+				if a, ok := bnd.(*ssa.Alloc); ok && i < len(fn.FreeVars) && d == "var:"+a.Name() {
+					deps = append(deps, "var:fv:"+fn.FreeVars[i].Name())
+					renamed = true
+				}
+			}
+			if !renamed {
+				return nil
+			}
+			continue
+		}
+		deps = append(deps, d)
+	}
+	i := e.linOf(fn.Params[0])
+	at := fn.Blocks[0]
+	return []fact{
+		{a: lin{i.term, 0, nil, true}, b: lin{term, 0, deps, true}, k: -1 + N.off*0 - 0 + N.off, at: at, deps: deps},
+		{a: lin{"", 0, nil, true}, b: lin{i.term, 0, nil, true}, k: 0, at: at},
+	}
 }
